@@ -322,16 +322,15 @@ package keeper
 //@   ensures 0 <= cvaVested(ov, st, en, tu) && cvaVested(ov, st, en, tu) <= ov
 //@   prop C07
 //@ // what the split takes off the sender's original vesting for denomination amount u, original vesting ov, currently vesting vg:
-//@ // trunc(u*ov/vg) in 18-decimal arithmetic, exactly as the code computes it
-//@ spec func unlockDiff(u int, ov int, vg int) int = truncInt(chopRound(tquo(chopRound((u * P) * (ov * P)) * P * P, vg * P)))
+//@ // the integer quotient trunc(u*ov/vg)
+//@ spec func unlockDiff(u int, ov int, vg int) int = tquo(u * ov, vg)
 //@ lemma chopRoundExact(k int)
 //@   ensures chopRound(k * P) == k
 //@   reveal chopRound
 //@   prop C07
 //@ lemma unlockDiffBounds(u int, ov int, vg int)
 //@   requires 0 <= u && u <= vg && vg >= 1 && ov >= 0
-//@   uses chopRoundExact(u * ov * P), mulMono(ov * P * P * P, u, vg)
-//@   uses mulCancelLe(vg * P, tquo(u * ov * P * P * P, vg * P), ov * P * P), chopRoundLe(tquo(u * ov * P * P * P, vg * P), ov * P)
+//@   uses mulMono(ov, u, vg), mulCancelLe(vg, tquo(u * ov, vg), ov)
 //@   ensures 0 <= unlockDiff(u, ov, vg) && unlockDiff(u, ov, vg) <= ov
 //@   prop C07
 //@ lemma vestedBoundsCanary(ov int, st int, en int, tu int)
